@@ -5,6 +5,7 @@
 import TypedpyModel.Drive.Wire
 import TypedpyModel.Sem.Deser
 import TypedpyModel.Spec.Conforms
+import TypedpyModel.Spec.Lift
 namespace Typedpy.Drive.Serde
 open Lean (Json)
 open Typedpy Typedpy.Wire
@@ -23,7 +24,7 @@ def fieldErrs (O : Oracles) (opts : DeserOpts) (cls : FieldDecl) (doc : PyVal) :
         fields.filterMap fun (name, f) =>
           match lookup name kw with
           | none => none
-          | some v => match deser O opts c.ignoreNone f v with
+          | some v => if v.isNone then none else match deser O opts c.ignoreNone f v with
             | .error e => some (errName e)
             | .ok y => match (if y.isNone && c.ignoreNone && !c.required.contains name then .ok y else validate O f y) with
               | .error e => some (errName e)
@@ -54,6 +55,11 @@ def run (j : Json) : Except String Json := do
     | .error _ => pure ()
   if let some dj := optField j "doc" then
     let d ← valOfJson dj
+    let liftOk := match cls with | .struct _ fields _ => liftableFields fields | _ => false
+    out := out ++ [("liftable", Json.bool liftOk),
+                   ("expected", match expectedDeser O opts cls d with
+                      | some x => Json.mkObj [("ok", valToJson x)]
+                      | none => Json.mkObj [("reject", Json.bool true)])]
     out := out ++ [("deser", resToJson (deserialize O opts cls d)),
                    ("errs", Json.arr ((fieldErrs O opts cls d).map Json.str).toArray)]
   if let some ij := optField j "implInst" then
